@@ -499,3 +499,45 @@ func (e *Env) AbandonInVerify(client, src int, l *Layer) (abandoned bool, res in
 		return false, o.res
 	}
 }
+
+// HoldInVerify performs a blocking report of l from source src and keeps the monitor parked inside Verify for it until
+// `until` is closed (or 10s pass); the report then completes normally. Returns false if Verify was not reached.
+func (e *Env) HoldInVerify(client, src int, l *Layer, until <-chan struct{}) (reached bool, res int) {
+	in, release := make(chan struct{}), make(chan struct{})
+	armed := atomic.Bool{}
+	armed.Store(true)
+	setHook := func(f func(*Cfg)) {
+		e.S.mu.Lock()
+		e.S.OnVerify = f
+		e.S.mu.Unlock()
+	}
+	setHook(func(*Cfg) {
+		if armed.CompareAndSwap(true, false) {
+			e.S.inVerify.Store(true)
+			close(in)
+			<-release
+			e.S.inVerify.Store(false)
+		}
+	})
+	defer setHook(nil)
+	type out struct{ res int }
+	done := make(chan out, 1)
+	go func() {
+		r, _ := e.Report(e.S.Ctx, client, src, l, true)
+		done <- out{r}
+	}()
+	select {
+	case <-in:
+		select {
+		case <-until:
+		case <-time.After(10 * time.Second):
+		}
+		close(release)
+		o := <-done
+		return true, o.res
+	case o := <-done:
+		armed.Store(false)
+		close(release)
+		return false, o.res
+	}
+}
